@@ -12,11 +12,13 @@
 // Modes (first part):
 //   L <budget>   lockstep under vsched.h at gate granularity: the pool owns no OS threads, enrolled harness threads play the
 //                workers (pool.tryExecuteNext() in a loop), thread 0 calls dispenso::pipeline.
-//                Output: steps t:site ... | log t:k:j:tag:val ... | fin ret=R live=N errs=E wr=W q=Q | status S
+//                Output: steps t:site ... | log t:k:j:tag:val ... | fin ret=R live=N errs=E wr=W q=Q blk=B | status S
+//                (blk=1: the caller is asleep in the completion futex when the run ends)
 //   N <reps>     native run on a real ThreadPool(numT) (history-level): Output per rep:
 //                N log t:k:j:tag:val ... | fin ret=R live=N errs=E reuse=U
 //   O <reps>     native single-stage pipeline: P line + "G <limit> <nitems> <throwAt>"; Output: O calls=C ret=R
 // log kinds: 1 enter(stage j, tag, input value)  2 exit  3 throw  4 generated(tag)  5 generator throws  6 generator ends
+//            9 pipeline() returned (or rethrew) on the caller  14 a generator call begins
 // ret: -1 pipeline returned normally, otherwise the id of the rethrown exception ((j+1)*1000+tag for stage j, tag for the generator)
 #include <atomic>
 #include <cerrno>
@@ -137,6 +139,7 @@ static long stageBody(long j, const Item& in) {
 }
 struct GenFn {
   dispenso::OpResult<Item> operator()() const {
+    logEv(14, -1, 0, 0);
     hpoint("h.gen");
     long k = g_c->next.fetch_add(1);
     if (k == g_c->gthrow) {
@@ -264,6 +267,7 @@ static void lockstep(long budget, Case& c) {
   std::atomic<long> ret{-2};
   S.spawn([&]() {
     long r = runPipeline(*pool);
+    logEv(9, -1, 0, 0);
     ret.store(r);
     done.store(true);
   });
@@ -286,8 +290,9 @@ static void lockstep(long budget, Case& c) {
     std::lock_guard<std::mutex> g(g_logMu);
     printLog();
   }
-  printf(" | fin ret=%ld live=%ld errs=%ld wr=%ld q=%zu | status %s\n", ret.load(), Led::live(), Led::counters().errors(),
-         static_cast<long>(pool->workRemaining_.load()), pool->work_.size_approx(), S.status().c_str());
+  int blk = (!S.ths_.empty() && S.ths_[0]->st == vs::St::Blocked) ? 1 : 0;   // the caller of pipeline() sleeps in the futex
+  printf(" | fin ret=%ld live=%ld errs=%ld wr=%ld q=%zu blk=%d | status %s\n", ret.load(), Led::live(), Led::counters().errors(),
+         static_cast<long>(pool->workRemaining_.load()), pool->work_.size_approx(), blk, S.status().c_str());
   fflush(stdout);
 }
 
@@ -303,6 +308,7 @@ static void native(long reps, Case& c) {
     {
       dispenso::ThreadPool pool(static_cast<size_t>(c.numT));
       ret = runPipeline(pool);
+      logEv(9, -1, 0, 0);
       // the pool must stay usable: a second, exception-free pipeline on the same pool delivers all of its items
       std::atomic<long> got{0};
       long k2 = 0;
